@@ -36,6 +36,8 @@ class Bip32KeyDataConst:
     CHAINCODE_BYTE_LEN: int = 32
     # Depth length in bytes
     DEPTH_BYTE_LEN: int = 1
+    # Depth maximum value (it is serialized with a single byte)
+    DEPTH_MAX_VAL: int = 2**8 - 1
     # Fingerprint length in bytes
     FINGERPRINT_BYTE_LEN: int = 4
     # Fingerprint of master key
@@ -140,7 +142,7 @@ class Bip32Depth:
         Raises:
             ValueError: If the depth value is not valid
         """
-        if depth < 0:
+        if depth < 0 or depth > Bip32KeyDataConst.DEPTH_MAX_VAL:
             raise ValueError(f"Invalid depth ({depth})")
         self.m_depth = depth
 
